@@ -16,8 +16,13 @@ Pending polls before each chunk) x a set of suspension points at which the pendi
 is dropped and a new one created; exhaustive lanes: every subset of the suspension points of small \
 streams (<= 12 points) and 'cancel every k-th Pending poll' for every k. Oracle: the sequence of \
 results equals the reference decode of each frame, then end-of-stream (the no-cancellation model). \
+A further lane drives the abandonment the way zlink itself does it: C08-style server scenarios \
+(several connections, calls split across chunks, a poll of Server::run() after every delivery), in \
+which the server drops every pending receive_call future whenever another select branch wins; the \
+service must see every call once, in order, intact (C08's sequential model). \
 Non-trivial = at least one cancellation happened while the connection held a strict prefix of a \
-frame; distinct by hash of (target, frames, cuts, pend, cancel).";
+frame (server lane: a call split across chunks with another connection's delivery in between); \
+distinct by hash of (target, frames, cuts, pend, cancel) or of the scenario.";
 
 fn case_strategy() -> impl Strategy<Value = RxCase> {
     (0usize..ALL_TARGETS.len())
@@ -126,7 +131,7 @@ fn small_streams() -> Vec<(Target, Vec<B>, Vec<usize>)> {
 }
 
 pub fn run(ctx: &Ctx) -> i32 {
-    let (shards, cases) = ctx.tier.pick((8, 2500), (64, 40_000));
+    let (shards, cases) = ctx.tier.pick((16, 10000), (64, 40_000));
     let (mut stats, mut viol) = run_shards(ctx, "random", shards, cases, case_strategy, check_case);
 
     // Exhaustive: every subset of suspension points (2 Pending polls before each chunk).
@@ -190,6 +195,49 @@ pub fn run(ctx: &Ctx) -> i32 {
     stats.merge(s3);
     viol.extend(v3);
 
+    // The server's main loop is the one place in zlink that abandons receives systematically: all
+    // pending receive_call futures are dropped whenever another select branch wins. Run C08-style
+    // scenarios (calls split across chunks, deliveries of several connections interleaved, a poll
+    // after most events) and demand that the service sees every call once, in order, intact.
+    let (s4, v4) = run_shards(
+        ctx,
+        "through-server",
+        shards,
+        cases / 2,
+        || {
+            use proptest::prelude::*;
+            vcommon::srvgen::scenario_strategy(crate::c08::FEATURES).prop_map(|mut sc| {
+                // poll after every delivery so that receives are abandoned with partial frames buffered
+                let mut steps = Vec::with_capacity(sc.steps.len() * 2);
+                for st in sc.steps.drain(..) {
+                    let is_poll = matches!(st, vcommon::srv::Step::Poll);
+                    steps.push(st);
+                    if !is_poll {
+                        steps.push(vcommon::srv::Step::Poll);
+                    }
+                }
+                sc.steps = steps;
+                sc
+            })
+        },
+        |sc, stats| {
+            stats.class("lane:through-server");
+            let mut scratch = Stats::default();
+            let nontrivial = crate::c08::classify(sc, &mut scratch);
+            let split = scratch.classes.get("call-split-across-chunks").copied().unwrap_or(0) > 0;
+            let inter = scratch.classes.get("interleaved-deliveries").copied().unwrap_or(0) > 0;
+            let _ = nontrivial;
+            if split && inter {
+                stats.class("through-server:receive-abandoned-mid-frame");
+                stats.nontrivial_hash(hash_of(&("srv", sc)));
+            }
+            let trace = vcommon::srv::run_scenario(sc);
+            vcommon::srv::judge_trace(sc, &trace)
+        },
+    );
+    stats.merge(s4);
+    viol.extend(v4);
+
     Report::new(RULE)
         .assume("the transport's read future is itself cancel safe (the trait requires it; the simulated one consumes a script entry only in the poll that reports it)")
         .assume("reference = C01's per-frame reference decode")
@@ -197,7 +245,10 @@ pub fn run(ctx: &Ctx) -> i32 {
         .finish(ctx, &stats, &viol, &[])
 }
 
-pub fn replay(_lane: &str, case: serde_json::Value) -> CaseResult {
+pub fn replay(lane: &str, case: serde_json::Value) -> CaseResult {
+    if lane == "through-server" {
+        return crate::c08::replay(lane, case);
+    }
     let case: RxCase = serde_json::from_value(case).map_err(|e| Fail::new("bad-replay", e.to_string()))?;
     let run = case.run();
     println!("stream: {}", truncate(&show_bytes(&case.stream()), 600));
